@@ -29,6 +29,7 @@ class Facts:
         self.root = self.raw["root"]
         self.items = self.raw["items"]
         self.unsafe_blocks = self.raw["unsafe_blocks"]
+        self.impls = self.raw.get("impls", [])
 
     def fn(self, path):
         return self.fns.get(path)
